@@ -4,12 +4,18 @@ import SigModel.Spec.Checksum
 /-!
 Driver for C02.  Ops (tokens; byte strings as `x<hex>`, backends as `<id>:x<secret>`):
 
-* `cfg <compat | -> <b1,b2,… | ->`                                   backend table of the case
+* `cfg <compat | -> <b1,b2,… | -> u=<enc "mode;id=url;…">`            backend table of the case; in mode `backends` the urls
+      are the configured ones (stored `'/'`-terminated as `getConfiguredHosts` does)
 * `sign <label> <id> <x random> <x body>`                             `CalculateBackendChecksum` under `id`'s secret → `sum x<hex>`; defines reference `label`
 * `req <label|-> <hdr> <x random> <x checksum> <x body> <bodyok> <ct> <len|-> <room> [u=…]`
-      one POST /api/v1/room/<room>; hdr = `-` | `?` | `b:<id>` → `<status> t<0|1> <events>`
+      one POST /api/v1/room/<room>; hdr = `-` | `?` | `b:<id>` → `<status> t<0|1> <events>`.  `u=` is the literal value of
+      the backend header.  In mode `backends`, for a value that is a plain URL, the model resolves it itself (`hdrOf`) and the
+      judge takes the claim from the spec (`owners`); `hdr` must then be the spec's claim (else `bad-op:claim-token`).  In the
+      compat modes and for other values `hdr` is an input.  The implementation line may end in `lookup=<hdr>`: what
+      `GetBackend` answered when that differs from `hdr` (never printed by the model).
 * `fn <x checksum> <x random> <x body> <x secret>`                    `ValidateBackendChecksumValue` → `0|1`
-* `out <kind> <id|->`                                                 one `PerformJSONRequest`; the implementation line carries what the fake
+* `out <kind> <id|-> [u=<enc url>]`                                   one `PerformJSONRequest` (to `url` if given — then `id` must be the
+      backend the url belongs to by the spec —, else to the url of `id`); the implementation line carries what the fake
       backend received: `out <x random> <x body> <x checksum>` | `none`
 -/
 namespace SigModel.Driver.C02
@@ -19,7 +25,38 @@ def mac : Hmac.Mac := Hmac.hmacSha256
 
 structure St where
   cfg : Cfg := ⟨none, []⟩
+  entries : List Entry := []      -- mode `backends`: the backends with their stored urls, in configuration order
   judge : Judge := {}
+
+/-- The decoded `u=` token of an op. -/
+def uTok (op : List String) : Option String :=
+  (op.find? (hasPrefix "u=")).bind fun t => dec (dropS 2 t)
+
+/-- `mode;id=url;id=url…` of the cfg op. -/
+def parseEntries (bs : List Backend) (u : String) : List Entry :=
+  match u.splitOn ";" with
+  | mode :: rest =>
+    if mode != "backends" then [] else
+    rest.filterMap fun kv =>
+      match kv.splitOn "=" with
+      | id :: r@(_ :: _) => (bs.find? (·.id == id)).map fun b => ⟨b, configUrl ("=".intercalate r).toList⟩
+      | _ => none
+  | [] => []
+
+def plainChar (c : Char) : Bool := c.isAlphanum || c == '.' || c == '_' || c == '/' || c == '-'
+
+/-- The URL shape `Model.lookup` covers: `http(s)://` followed by letters, digits, `. _ - /`, no dot segments. -/
+def plainUrl (u : List Char) : Bool :=
+  let rest := if "http://".toList.isPrefixOf u then some (u.drop 7)
+    else if "https://".toList.isPrefixOf u then some (u.drop 8) else none
+  match rest with
+  | some r => r.all plainChar && !(splitSlash r).any (fun s => s == ['.'] || s == ['.', '.'])
+  | none => false
+
+def claimTok (absent : Bool) (cl : List Backend) : String :=
+  if absent then "-" else match cl with
+  | [] => "?"
+  | b :: _ => "b:" ++ b.id
 
 def xhex (b : Bytes) : String := "x" ++ Bytes.toHexString b
 
@@ -71,14 +108,19 @@ def parseEvents (tok : String) : List Event :=
 
 def parseImplResp : List String → Option Resp
   | [status, t, evs] => (toNat? status).map fun s => { status := s, throttled := t == "t1", events := parseEvents evs }
+  | [status, t, evs, lk] =>
+    if hasPrefix "lookup=" lk then
+      (toNat? status).map fun s => { status := s, throttled := t == "t1", events := parseEvents evs }
+    else none
   | _ => none
 
 def step (st : St) (op impl : List String) : St × String × String :=
+  let u := uTok op
   let op := op.filter (fun t => !(hasPrefix "#" t || hasPrefix "u=" t || hasPrefix "wr=" t || hasPrefix "wc=" t || hasPrefix "ct=" t))
   match op with
   | ["cfg", c, bs] =>
     match (if c == "-" then some none else (parseBackend c).map some), parseBackends bs with
-    | some c, some bs => ({ st with cfg := ⟨c, bs⟩ }, "-", "na")
+    | some c, some bs => ({ st with cfg := ⟨c, bs⟩, entries := parseEntries bs (u.getD "") }, "-", "na")
     | _, _ => (st, "bad-op", "na")
   | ["sign", label, id, rnd, body] =>
     match st.backend id, parseX rnd, parseX body with
@@ -102,38 +144,58 @@ def step (st : St) (op impl : List String) : St × String × String :=
         | _ => "na"
       (st, if m then "1" else "0", v)
     | _, _, _, _ => (st, "bad-op", "na")
-  | ["req", label, hdr, rnd, sum, body, bodyok, ct, len, room] =>
-    match parseHdr st hdr, parseX rnd, parseX sum, parseX body with
-    | some hdr, some rnd, some sum, some body =>
+  | ["req", label, hdrTok, rnd, sum, body, bodyok, ct, len, room] =>
+    -- the header value as a URL (model: `hdrOf`, spec: `owners`) or as an input (the token)
+    let byUrl := match u with
+      | some v => if !st.entries.isEmpty && (v.isEmpty || plainUrl v.toList) then some v.toList else none
+      | none => none
+    let hdrCl : Option (Hdr × List Backend × Bool) := match byUrl with
+      | some v =>
+        let cl := claimedUrl st.cfg st.entries v
+        some (hdrOf st.entries v, cl, claimTok v.isEmpty cl == hdrTok)
+      | none => (parseHdr st hdrTok).map fun h => (h, claimed st.cfg h, true)
+    match hdrCl, parseX rnd, parseX sum, parseX body with
+    | some (_, cl, false), _, _, _ => (st, "bad-op:claim-token:" ++ claimTok false cl, "na")
+    | some (hdr, cl, true), some rnd, some sum, some body =>
       let clen := if len == "-" then none else toNat? len
       let r : Req := ⟨hdr, rnd, sum, body⟩
       let h : Http := ⟨room, clen, ct == "1", r, bodyok == "1"⟩
       let resp := handle mac st.cfg h
-      let searched := hdr == .absent && st.cfg.compat.isNone
+      let searched := hdrTok == "-" && st.cfg.compat.isNone
       let wellFormed := ct == "1" && (match clen with | some n => n ≤ Generated.Checksum.maxBodySize | none => false)
       let v := match parseImplResp impl with
         | some i =>
           let ref := st.judge.refs.find? (·.label == label)
           if label != "-" && ref.isNone then "na"
-          else Judge.observeReq mac st.cfg ref wellFormed r i
+          else Judge.observeReqOf mac cl ref wellFormed r i
         | none => "na"
       (st, showResp st searched resp, v)
     | _, _, _, _ => (st, "bad-op", "na")
   | ["out", _kind, id] =>
-    let target := if id == "-" then none else st.backend id
+    -- model: the backend the lookup finds for the target url; spec: the backend the url belongs to
+    let byId := if id == "-" then none else st.backend id
+    let byUrl := match u with
+      | some v => if !st.entries.isEmpty && plainUrl v.toList then some v.toList else none
+      | none => none
+    let (targetM, target, tokOk) : Option Backend × Option Backend × Bool := match byUrl with
+      | some v =>
+        let o : Option Backend := (owners st.entries v).head?
+        (lookup st.entries v, o, (o.map (·.id)).getD "-" == id)
+      | none => (byId, byId, true)
+    if !tokOk then (st, "bad-op:claim-token:" ++ (target.map (·.id)).getD "-", "na") else
     match impl with
     | ["out", rnd, body, sum] =>
       match parseX rnd, parseX body, parseX sum with
       | some rnd, some body, some sum =>
         -- the model cannot know the random: it recomputes the checksum for the random and body that were sent
-        let m := match target with
+        let m := match targetM with
           | some b => "out " ++ xhex rnd ++ " " ++ xhex body ++ " " ++ xhex (checksumOf mac rnd body b.secret)
           | none => "none"
         let (j, v) := st.judge.observeOut mac target rnd body sum
         ({ st with judge := j }, m, v)
       | _, _, _ => (st, "bad-impl", "na")
-    | ["none"] => (st, if target.isNone then "none" else "out", if target.isNone then "ok" else "violated:no-request-sent")
-    | _ => (st, if target.isNone then "none" else "out", "na")
+    | ["none"] => (st, if targetM.isNone then "none" else "out", if target.isNone then "ok" else "violated:no-request-sent")
+    | _ => (st, if targetM.isNone then "none" else "out", "na")
   | _ => (st, "bad-op", "na")
 
 end SigModel.Driver.C02
